@@ -258,6 +258,43 @@ Proof. exact LexLinkT.text_roundtrip_coretb. Qed.
 Theorem C02_text_roundtrip_block_targets_nonvacuous : LexLinkT.coretb_doc LexLinkTEx.extb = true /\ LexLinkT.lex_safet_doc LexLinkTEx.extb = true.
 Proof. exact LexLinkTEx.extb_ok. Qed.
 
+(* HOLOGRAPHIC VALUES at TEXT level (lexer half Rt/LexLinkTH*.v): coret documents whose holographic assignment values have the textual frame
+   ["s"/\W]  or  ["s"/\W["a1",..,"an"]]  (s any string as written by quote, W one identifier word that is no literal, n >= 1 quoted arguments),
+   next to targeted blocks and every core2 node at every depth: the whole reader model applied to the EMITTED TEXT returns the document.
+   hsh_lex cls is the shape oracle "lex the raw text alone": C02_holographic_lexed_alone_same_shape shows that lexing the pattern inside the
+   document line gives the same tokens (context independence).  Flow chains, non-string examples and bare-word call arguments are not
+   covered by this theorem (parser half + extracted coret_shape_check per document). *)
+From OV Require Rt.LexLinkTH Rt.LexLinkTHEx.
+Theorem C02_text_roundtrip_holographic :
+  forall cls numcanon holo_ok strict sp d,
+    LexLinkTH.coreth_doc d = true -> LexLinkTH.lex_safeth_doc LexLinkTH.hsh_cls d = true ->
+    TokRoundTHolo.nodes_side numcanon holo_ok ex_idnum (TokRoundTEx.hsh_lex cls) (dsections d) -> Forall (TokRoundT.field_num_ok numcanon) (dmeta d) ->
+    exists warns, parse_model cls numcanon holo_ok strict (lines_of (emit sp d)) = PRDoc d [] warns /\ Forall advisory warns.
+Proof. exact LexLinkTH.text_roundtrip_coreth_lex. Qed.
+Theorem C02_holographic_lexed_alone_same_shape :
+  forall cls s w, LexLinkTH.wt_ok w = true -> TokRoundTEx.hsh_lex cls (LexLinkTH.holo_text s w) = LexLinkTH.th_shape s w.
+Proof. exact LexLinkTH.hsh_lex_class. Qed.
+Theorem C02_text_roundtrip_holographic_nonvacuous :
+  LexLinkTH.coreth_doc LexLinkTHEx.exth = true /\ LexLinkTH.lex_safeth_doc LexLinkTH.hsh_cls LexLinkTHEx.exth = true.
+Proof. exact (conj (proj1 LexLinkTHEx.exth_ok) LexLinkTHEx.exth_ok_cls). Qed.
+
+(* ... and constraint CHAINS of words  ["s"/\W1/\W2 ... /\Wn]  (n >= 1), Rt/LexLinkTH2*.v.  A word directly followed by the non-ASCII operator
+   depends on the character-class oracle: the boolean clause cls_and_ok cls (the operator is no identifier / word / digit character) is part of
+   the side condition, holds for the example oracle, and is needed (LexLinkTH2Ex.bad_cls_clause). *)
+From OV Require Rt.LexLinkTH2 Rt.LexLinkTH2Ex.
+Theorem C02_text_roundtrip_holographic_chains :
+  forall cls (hsh : str -> list sh) numcanon holo_ok strict sp d,
+    LexLinkTH2.coreth2_doc d = true -> LexLinkTH2.lex_safeth2_doc cls hsh d = true ->
+    TokRoundTHolo.nodes_side numcanon holo_ok ex_idnum hsh (dsections d) -> Forall (TokRoundT.field_num_ok numcanon) (dmeta d) ->
+    exists warns, parse_model cls numcanon holo_ok strict (lines_of (emit sp d)) = PRDoc d [] warns /\ Forall advisory warns.
+Proof. exact LexLinkTH2.text_roundtrip_coreth2. Qed.
+Theorem C02_holographic_chain_lexed_alone_same_shape :
+  forall cls s ws, LexLinkTH2.cls_and_ok cls = true -> LexLinkTH2.chain_ok ws = true ->
+    TokRoundTEx.hsh_lex cls (LexLinkTH2.chain_text s ws) = LexLinkTH2.chain_shape s ws.
+Proof. exact LexLinkTH2.hsh_lex_chain. Qed.
+Theorem C02_holographic_chains_oracle_clause_holds : LexLinkTH2.cls_and_ok ex_cls = true.
+Proof. exact LexLinkTH2Ex.ex_cls_and_ok. Qed.
+
 (* ---- source-text pins (generated by harness/pinsets.py) ---- *)
 (* every function of these modules is, text for text (comments and docstrings excluded), the one the models of this
    property were written against and validated against: harness/translate/srcdigest_t.py, Src/Pin_*.v *)
